@@ -7,7 +7,7 @@ from ..callgraph import get_callgraph
 from ..cfg import cfg_of
 from ..locks import accesses, get_locks
 from ..model import AnalysisError, dotted, norm, walk_own
-from .common import assigned_names, find_calls, guards_of, key_of, mentions
+from .common import assigned_names, cmp_fact, find_calls, guards_of, key_of, mentions, tail_is
 
 EXPLANATION = (
     "Static monitor-discipline analysis of ThreadedTaskDispatcher: every access to queue/threads/stop_count/"
@@ -309,6 +309,15 @@ def rule_r6(ctx):
         adds = [x for x in lp.body if isinstance(x, ast.Expr) and isinstance(x.value, ast.Call) and isinstance(x.value.func, ast.Attribute) and x.value.func.attr == "add"]
         if len(incs) == 1 and len(starts) == 1 and len(adds) == 1:
             ctx.r.ok(rid, "each iteration registers and starts exactly one worker and counts it", f.loc(lp))
+            # the number registered is free: the add is reached only through the false outcome of `<no> in threads`
+            an = [x for x in g.nodes if x.kind == "stmt" and x.ast is adds[0]]
+            no = norm(adds[0].value.args[0]) if adds[0].value.args else None
+            cont = norm(adds[0].value.func.value)
+            free = an and no and any((cmp_fact(t, pol) or ("",))[0] == "in" and cmp_fact(t, pol)[1] == no and cmp_fact(t, pol)[3] is False and tail_is(cmp_fact(t, pol)[2], cont.split(".")[-1]) for (t, pol) in guards_of(g, an[0]))
+            if free:
+                ctx.r.ok(rid, "a new worker gets a number that is not in the set", f.loc(adds[0]))
+            else:
+                ctx.r.violation(rid, key_of(f, None, "worker-number-not-free"), "the number registered for a new worker (%s) is not established to be free (`while %s in %s` skipped or weakened): two workers share one entry, the set under-counts and resizing / shutdown never converge" % (no, no, cont), f.loc(adds[0]))
         else:
             ctx.r.violation(rid, key_of(f, None, "start-loop-body"), "start loop body does not register/start/count exactly one worker per iteration", f.loc(lp))
 
@@ -350,7 +359,14 @@ def rule_r8(ctx):
     c05.rule_r7(ctx, rid="C14.R8")
 
 
-RULES = [rule_r1, rule_r2, rule_r3, rule_r4, rule_r5, rule_r6, rule_r7, rule_r8]
+def rule_r9(ctx):
+    """Shared with C09.R3: 'none is lost' - the worker loop survives every exception of a task (BaseException), otherwise
+    the tasks queued behind it are neither run nor cancelled and the pool never converges."""
+    from . import c09
+    c09.rule_r3(ctx, rid="C14.R9")
+
+
+RULES = [rule_r1, rule_r2, rule_r3, rule_r4, rule_r5, rule_r6, rule_r7, rule_r8, rule_r9]
 
 from ..selftest import M, T, V  # noqa: E402
 
